@@ -30,6 +30,8 @@ FEATURE = {
     "nullchain": {"<start>": ["<a>"], "<a>": ["<b><c>x", "<b>"], "<b>": ["", "y<b>"], "<c>": ["", "z"]},
     "nestlist": {"<start>": ["<doc>"], "<doc>": ["<item>", "<item>\n<doc>"], "<item>": ["<key>: <vals>"],
                  "<key>": ["k", "kk"], "<vals>": ["<val>", "<val>,<vals>"], "<val>": ["u", "v", "[<vals>]"]},
+    # line-oriented format: every word ends in a newline
+    "lines": {"<start>": ["<lines>"], "<lines>": ["<line>\n<lines>", "<line>\n"], "<line>": ["<ch>", "<ch><line>"], "<ch>": ["a", "b", ";"]},
 }
 
 
